@@ -192,6 +192,18 @@ func (x *Exec) call(in ssa.Instruction, c *ssa.CallCommon, res ssa.Value) {
 	if selfVal != nil {
 		binders["self"] = *selfVal
 	}
+	// a closure called where it was made: its free variables are nameable too
+	if mc, ok := c.Value.(*ssa.MakeClosure); ok && callee != nil {
+		for i, fv := range callee.FreeVars {
+			if i < len(mc.Bindings) {
+				pt := deref(fv.Type())
+				l := x.locOf(mc.Bindings[i])
+				if _, taken := binders[fv.Name()]; !taken {
+					binders[fv.Name()] = Val{T: e.load(x.st, l), Sort: e.sortOf(pt), GT: pt}
+				}
+			}
+		}
+	}
 	// special-cased library semantics
 	if callee != nil {
 		if x.special(callee, c, args, res, in) {
